@@ -134,7 +134,7 @@ impl Campaign for C19 {
     fn runs(&self, tier: Tier) -> u64 {
         match tier {
             Tier::Quick => 40_000,
-            Tier::Thorough => 3_000_000,
+            Tier::Thorough => 6_000_000,
         }
     }
 
